@@ -31,7 +31,9 @@ _counter = itertools.count()
 
 RULE = ('hand seeds harness/specs/c14_*.stone (every feature of the quantifier, deterministic) + generated specs '
         '(specgen preset routes; route arguments re-drawn among visible structs / unions / aliases of them / '
-        'Void, `style` attribute upload / download / rpc through a stone_cfg.Route schema) x every route version x '
+        'Void, `style` attribute upload / download / rpc through a stone_cfg.Route schema; in three families of five the field and '
+        'route names re-spelled in camelCase / PascalCase / UPPER / with digits / trailing and doubled underscores / acronym runs; '
+        'hand seed c14_names_* holds every such shape deterministically) x every route version x '
         'random valid argument values (harness.values.ValueGen) in random positional / keyword splits, optional '
         'parameters given or omitted; plus ill-formed calls (unknown / duplicate / missing / surplus arguments) for '
         'the call-binding model')
@@ -790,12 +792,37 @@ def draw_bad_call(ses, v, rng, good):
     return {'pos': pos, 'kw': kw, 'bad': how}
 
 
+def build_checked(ses, t):
+    """values.Codec.build_checked, with the attributes of nested struct values addressed by the names the generated
+    classes give them (lower_snake_case words of the field name) instead of the spec's spelling, so that values of
+    structs whose fields are written in camelCase / PascalCase / ... can be built through the public interface too"""
+    k = t[0]
+    if k == 'S':
+        obj = ses.built.cls_by_ref[t[1]]()
+        for name, x in t[2]:
+            setattr(obj, ref_underscores(name), build_checked(ses, x))
+        # a struct value goes into a call as the value of a field: when the generated classes themselves refuse it in
+        # that position (python_types / runtime, C08 / C09) the call has no valid argument to judge
+        from stone.backends.python_rsrc import stone_validators as bv
+        bv.Struct(type(obj)).validate(obj)
+        return obj
+    if k == 'U':
+        return ses.built.cls_by_ref[t[1]](t[2], build_checked(ses, t[3]))
+    if k == 'l':
+        return [build_checked(ses, x) for x in t[1]]
+    if k == 'u':
+        return tuple(build_checked(ses, x) for x in t[1])
+    if k == 'd':
+        return {build_checked(ses, a): build_checked(ses, b) for a, b in t[1]}
+    return ses.codec.to_py(t)
+
+
 def run_real_call(ses, method_name, call):
     """-> ('ok', outcome dict with python objects) | ('raises', exception class name, text)"""
     Recorder, ret = make_recorder(ses)
     try:
-        pos = [ses.codec.build_checked(tv) for tv in call['pos']]
-        kw = {n: ses.codec.build_checked(tv) for n, tv in call['kw']}
+        pos = [build_checked(ses, tv) for tv in call['pos']]
+        kw = {n: build_checked(ses, tv) for n, tv in call['kw']}
     except Exception as e:  # noqa: BLE001
         return ('value-build-fails', type(e).__name__, str(e)[:200])
     rec = Recorder()
@@ -852,6 +879,16 @@ def bind_expected(ses, v, pos, kw):
     return bound
 
 
+def _srepr(x):
+    """repr that survives generated classes whose own __repr__ raises (stone_base.Struct.__repr__ looks for
+    `_<spec name>_value`, which does not exist for field names that are not lower_snake_case)"""
+    try:
+        return repr(x)
+    except Exception:  # noqa: BLE001
+        d = {k: _srepr(getattr(x, k)) for k in getattr(type(x), '__slots__', ()) if hasattr(x, k)}
+        return '<%s %s>' % (type(x).__name__, d)
+
+
 def judge_call(ses, v, call, res):
     """The property on one call of the method of route view v. -> [(what, signature, detail)]"""
     if res[0] == 'value-build-fails':
@@ -876,16 +913,16 @@ def judge_call(ses, v, call, res):
     if robj is None:
         return []        # python_types did not define exactly one object for the route: not this property
     if route is not robj:
-        fail('route-object', {'expected': repr(robj), 'real': repr(route)})
+        fail('route-object', {'expected': _srepr(robj), 'real': _srepr(route)})
     if namespace != v.ns or type(namespace) is not str:
-        fail('namespace-name', {'expected': v.ns, 'real': repr(namespace)})
+        fail('namespace-name', {'expected': v.ns, 'real': _srepr(namespace)})
     bound = bind_expected(ses, v, pos, kw)
     if v.kind == 'void':
         if arg is not None:
-            fail('void-argument', repr(arg))
+            fail('void-argument', _srepr(arg))
     elif v.kind == 'union':
         if arg is not bound['arg']:
-            fail('union-argument', repr(arg))
+            fail('union-argument', _srepr(arg))
     else:
         try:
             want = build_direct(ses, v, bound)
@@ -903,19 +940,19 @@ def judge_call(ses, v, call, res):
                 eq = True
             if a != b or not eq:
                 diff = sorted(k for k in set(a) | set(b) if k not in a or k not in b or a[k] != b[k])
-                fail('argument-fields', {'differing_fields': diff, 'expected': repr(want), 'real': repr(arg)})
+                fail('argument-fields', {'differing_fields': diff, 'expected': _srepr(want), 'real': _srepr(arg)})
     if v.upload:
         if body is not bound['f']:
-            fail('upload-body', repr(body))
+            fail('upload-body', _srepr(body))
     elif body is not None:
-        fail('body-not-none', repr(body))
+        fail('body-not-none', _srepr(body))
     if bool(o['warnings']) != v.deprecated or len(o['warnings']) > 1:
         fail('deprecation-warning', {'route_deprecated': v.deprecated, 'warnings': [str(w.message) for w in o['warnings']]})
     if v.result_void:
         if o['out'] is not None:
-            fail('return-not-none', repr(o['out']))
+            fail('return-not-none', _srepr(o['out']))
     elif o['out'] is not o['ret']:
-        fail('return-value', repr(o['out']))
+        fail('return-value', _srepr(o['out']))
     return bad
 
 
@@ -1018,9 +1055,11 @@ def suite_calls(ck, sessions, n_calls):
             ck.hist('route.style', v.style if v.style in ('upload', 'download') else 'other')
             ck.hist('route.deprecated', 'no' if not v.deprecated else 'by-successor' if v.successor else 'plain')
             ck.hist('route.result_void', v.result_void)
+            ck.hist('route.name_shape', name_shape(v.name.replace('/', '_')))
             if v.kind == 'struct':
                 ck.hist('struct.inherited', v.inherited)
                 for f in v.fields:
+                    ck.hist('field.name_shape', name_shape(f.name))
                     kind = 'nullable' if f.nullable else 'required'
                     if f.has_default and not f.nullable:
                         d = f.default
@@ -1073,7 +1112,7 @@ def suite_calls(ck, sessions, n_calls):
             elif _eq_canon(real, model):
                 ck.agree('decl.pyclient.call')
             else:
-                ck.disagree('decl.pyclient.call', {'specs': ses.specs, 'method': mname, 'call': call}, repr(real), repr(model))
+                ck.disagree('decl.pyclient.call', {'specs': ses.specs, 'method': mname, 'call': call}, _srepr(real), _srepr(model))
         ck.sample({'spec': ses.label, 'methods': len({m[1] for m in meta}), 'calls': len(meta)})
 
 
@@ -1255,6 +1294,86 @@ def adapt_model(model, rng):
                 d.attrs['style'] = s
     return model
 
+# ------------------------------------------------------------------------------------------------------
+# names of every shape the spec language allows
+# ------------------------------------------------------------------------------------------------------
+_STONE_WORDS = set('''namespace import alias struct union union_closed route extends attrs example deprecated by
+    patch annotation annotation_type null true false Void Bytes Boolean Float32 Float64 Int32 Int64 UInt32 UInt64 String
+    Timestamp List Map Nullable upload download rpc self f arg r download_path warnings other'''.split())
+
+
+def name_variants(w):
+    """other spellings of an identifier written as lower_snake_case words: camelCase, PascalCase, UPPER, capitalised
+    first word, digits at the end, trailing / doubled underscore, acronym runs"""
+    parts = [p for p in w.split('_') if p] or [w]
+    camel = parts[0] + ''.join(p[:1].upper() + p[1:] for p in parts[1:])
+    pascal = ''.join(p[:1].upper() + p[1:] for p in parts)
+    out = [camel, pascal, w.upper(), parts[0][:1].upper() + parts[0][1:] + ''.join('_' + p for p in parts[1:]),
+           w + '2', camel + '3', pascal + 'V2', w + '_', '__'.join(parts) if len(parts) > 1 else w + '__x',
+           'URL' + pascal, camel + 'ID', camel + 'X', parts[0] + ''.join(p.upper() for p in parts[1:]) + 'Of',
+           'x' + pascal, pascal[:1].lower() + pascal[1:] + 'A1b']
+    return [n for n in dict.fromkeys(out) if n != w]
+
+
+def name_shape(n):
+    if n == ref_underscores(n):
+        return 'lower_snake' + ('+digit' if any(c.isdigit() for c in n) else '')
+    if '_' in n.strip('_') and any(_up(c) for c in n):
+        return 'Mixed_or_UPPER_with_underscore'
+    if n.isupper():
+        return 'UPPER'
+    return ('Pascal' if _up(n[0]) else 'camel') + ('+digit' if any(c.isdigit() for c in n) else '')
+
+
+def respell_names(model, specs, rng):
+    """Consistently re-spell field names and route names of a generated spec family (whole-word replacement in the
+    rendered texts: declarations, examples, doc references and `deprecated by` follow). Only words that name nothing
+    but struct fields / routes are touched; a new spelling is taken only when neither it nor its lower_snake_case form
+    meets another identifier of the texts (python_types derives attribute names from the words). -> (specs, count)"""
+    import re
+    fields, routes, other = set(), set(), set(_STONE_WORDS)
+    for ns in model.namespaces:
+        other.add(ns.name)
+        for d in ns.defs:
+            k = getattr(d, 'kind', None)
+            if k == 'route':
+                (routes if ns.name != 'stone_cfg' else other).add(d.name)
+                other.update(d.attrs)
+                continue
+            if hasattr(d, 'name') and k not in ('struct_patch', 'union_patch'):
+                other.add(d.name)
+            if k in ('struct', 'struct_patch') and ns.name != 'stone_cfg':
+                fields.update(fl.name for fl in d.fields)
+            else:
+                other.update(fl.name for fl in getattr(d, 'fields', []) or [])
+            other.update(fl.name for fl in getattr(d, 'tags', []) or [])
+            other.update(fl.name for fl in getattr(d, 'params', []) or [])
+            if getattr(d, 'subtypes', None):
+                other.update(t for t, _ in d.subtypes[0])
+    word = re.compile(r'[A-Za-z_][A-Za-z0-9_]*')
+    words = set()
+    for _p, text in specs:
+        words.update(word.findall(text))
+    taken = {ref_underscores(w) for w in words} | {w.lower() for w in words}
+    mapping = {}
+    for w in sorted((fields | routes) - other):
+        if '/' in w or '-' in w or keyword.iskeyword(w) or rng.random() < 0.4:
+            continue
+        for cand in rng.sample(name_variants(w), 3):
+            low = ref_underscores(cand)
+            if cand in words or keyword.iskeyword(cand) or keyword.iskeyword(low) or cand in _STONE_WORDS:
+                continue
+            if low != ref_underscores(w) and (low in taken or cand.lower() in taken):
+                continue
+            mapping[w] = cand
+            words.add(cand)
+            taken.update((low, cand.lower()))
+            break
+    if not mapping:
+        return specs, 0
+    out = [(p, word.sub(lambda m: mapping.get(m.group(0), m.group(0)), text)) for p, text in specs]
+    return out, len(mapping)
+
 
 def spec_sources(ck, n_generated):
     """[(label, specs)]: hand seeds first (the 'main' set holds, the others are known-breakage seeds), then generated"""
@@ -1265,6 +1384,10 @@ def spec_sources(ck, n_generated):
         try:
             model = adapt_model(model, ck.rng)
             specs = sg.render(model, None)
+            if i % 5 < 3:
+                # three families in five: field and route names in other spellings than lower_snake_case
+                specs, n = respell_names(model, specs, ck.rng)
+                ck.hist('spec.respelled_names', min(n, 40) // 10 * 10)
         except Exception as e:  # noqa: BLE001 - a harness limitation, never a verdict
             ck.stat('specgen.adapt_failed')
             ck.note('adapt_model failed: %s' % _short(e))
